@@ -12,6 +12,8 @@ import (
 	"os"
 	"runtime/debug"
 	"strings"
+	"time"
+	"verif/appchild"
 
 	"github.com/TarsCloud/TarsGo/tars"
 	"github.com/TarsCloud/TarsGo/tars/protocol/res/endpointf"
@@ -246,6 +248,7 @@ func permutations(n int, limit int, rng interface{ Perm(int) []int }) [][]int {
 }
 
 func main() {
+	appchild.MaybeChild()
 	run = vlib.Start("C18")
 	// the flag package prints a usage text to os.Stderr for every malformed option list
 	if dn, err := os.OpenFile(os.DevNull, os.O_WRONLY, 0); err == nil {
@@ -408,5 +411,8 @@ func main() {
 	run.Set("hostile_strings", hostile)
 	run.Sample(map[string]interface{}{"hostile": []string{"", "   ", "tc", "tcp -h"}})
 	managerRoute(rng)
+	appBindScenario()
 	run.Finish()
 }
+
+func sleepMs(n int) { time.Sleep(time.Duration(n) * time.Millisecond) }
